@@ -10,12 +10,6 @@ open Ec Ec.Gen.Coe
 
 /-! ### The segmented loop of sdo_read -/
 
-/-- A segment response makes progress if, whenever the client accepts it, it carries at least one byte. -/
-def SegProgress (cfg : Cfg) (m : List Nat) : Prop :=
-  ∀ h, unpackSdoSegmented (image cfg.rmbx m) = .ok h → SEGMENT_HEADER_LEN ≤ h.header.length →
-    1 ≤ (if h.header.length - SEGMENT_HEADER_LEN == SEGMENT_MIN_DATA then
-          h.header.length - SEGMENT_HEADER_LEN - h.segDataSize else h.header.length - SEGMENT_HEADER_LEN)
-
 theorem mwr_reqs {σ ρ : Type} (w : World σ) (cfg : Cfg) (req : List Nat) (u : List Nat → Res ρ) (v : Nat → Nat → Bool)
     (s : St σ) : (mailboxWriteRead w cfg req u v s).2.reqs.length ≤ s.reqs.length + 1 := by
   unfold mailboxWriteRead
@@ -30,43 +24,35 @@ theorem mwr_reqs {σ ρ : Type} (w : World σ) (cfg : Cfg) (req : List Nat) (u :
     | nil => exact Nat.le_of_eq h1
     | cons m q => exact Nat.le_of_eq h1
 
-/-- If every segment the device sends makes progress, the loop sends at most one request per free byte of the
-    destination buffer (+1), whatever the device does and however much fuel the model is given. -/
-theorem segLoop_requests_bounded {σ : Type} (w : World σ) (cfg : Cfg) (P : DevInv σ)
-    (hP : ∀ m, P.msg m → SegProgress cfg m) (hw : WGood P w) :
-    ∀ (fuel : Nat) (toggle : Bool) (buf : List Nat) (total : Nat) (s : St σ), QGood P s → total ≤ buf.length →
+/-- Whatever the device does and however much fuel the model is given: the segmented loop sends at most one request
+    per free byte of the destination buffer (+1), because a segment that is not the last one must carry at least one
+    byte (fix-c16-endless-loops). -/
+theorem segLoop_requests_bounded {σ : Type} (w : World σ) (cfg : Cfg) :
+    ∀ (fuel : Nat) (toggle : Bool) (buf : List Nat) (total : Nat) (s : St σ), total ≤ buf.length →
       (segLoop w cfg fuel toggle buf total s).2.reqs.length ≤ s.reqs.length + (buf.length - total) + 1 := by
   intro fuel
   induction fuel with
-  | zero => intro toggle buf total s _ _; show s.reqs.length ≤ _; omega
+  | zero => intro toggle buf total s _; show s.reqs.length ≤ _; omega
   | succ fuel ih =>
-    intro toggle buf total s hs ht
+    intro toggle buf total s ht
     unfold segLoop
     dsimp only
     have hreq := mwr_reqs w cfg (segmentRequest (mailboxCounter s).1 toggle) unpackSdoSegmented
       (fun _ _ => true) (mailboxCounter s).2
-    have hspec := mwr_spec P w cfg (segmentRequest (mailboxCounter s).1 toggle) unpackSdoSegmented
-      (fun _ _ => true) (mailboxCounter s).2 hw hs
-    have hok := mwr_ok P w cfg (segmentRequest (mailboxCounter s).1 toggle) unpackSdoSegmented
-      (fun _ _ => true) (mailboxCounter s).2 hw hs
     generalize mailboxWriteRead w cfg (segmentRequest (mailboxCounter s).1 toggle) unpackSdoSegmented
-      (fun _ _ => true) (mailboxCounter s).2 = r at hreq hspec hok
+      (fun _ _ => true) (mailboxCounter s).2 = r at hreq
     obtain ⟨r1, s'⟩ := r
     have hreq' : s'.reqs.length ≤ s.reqs.length + 1 := hreq
-    have hq : QGood P s' := hspec.1
     cases r1 with
     | err e => show s'.reqs.length ≤ _; omega
     | panic why => show s'.reqs.length ≤ _; omega
     | ok hd =>
       obtain ⟨h, data⟩ := hd
-      obtain ⟨m, hm, hu, _, _⟩ := hok h data rfl
       dsimp only
       split
       · show s'.reqs.length ≤ _; omega
-      · next hge =>
-        have hprog := hP m hm h hu (by omega)
-        generalize (if h.header.length - SEGMENT_HEADER_LEN == SEGMENT_MIN_DATA then
-          h.header.length - SEGMENT_HEADER_LEN - h.segDataSize else h.header.length - SEGMENT_HEADER_LEN) = chunk at hprog ⊢
+      · generalize (if h.header.length - SEGMENT_HEADER_LEN == SEGMENT_MIN_DATA then
+          h.header.length - SEGMENT_HEADER_LEN - h.segDataSize else h.header.length - SEGMENT_HEADER_LEN) = chunk
         split
         · show s'.reqs.length ≤ _; omega
         · split
@@ -78,9 +64,15 @@ theorem segLoop_requests_bounded {σ : Type} (w : World σ) (cfg : Cfg) (P : Dev
               omega
             split
             · show s'.reqs.length ≤ _; omega
-            · have := ih (!toggle) (setRange buf total (data.take chunk)) (total + chunk) s' hq (by rw [hlen]; omega)
-              rw [hlen] at this
-              omega
+            · split
+              · show s'.reqs.length ≤ _; omega
+              · next hz =>
+                have hpos : 1 ≤ chunk := by
+                  simp only [beq_iff_eq] at hz
+                  omega
+                have := ih (!toggle) (setRange buf total (data.take chunk)) (total + chunk) s' (by rw [hlen]; omega)
+                rw [hlen] at this
+                omega
 
 /-! ### Zero-length segments: the loop runs as long as the device keeps answering -/
 
@@ -111,43 +103,24 @@ theorem mwr_zeroSeg (req : List Nat) (ctr : Nat) (rest : List (List (List Nat)))
     List.length_nil, Nat.min_zero, Nat.add_zero, List.nil_append, Bool.not_true, Bool.false_eq_true, if_false]
   exact congrArg (fun x => (x, _)) triage_zeroSeg
 
-/-- For every n there is a finite script (n zero-length segments) that the client consumes completely: n more
-    requests, n more mailbox reads, and only the device falling silent ends the transfer. -/
-theorem segLoop_zeroSegs : ∀ (n fuel : Nat) (toggle : Bool) (buf : List Nat) (total ctr : Nat) (reqs : List (List Nat))
-    (reads : Nat), n < fuel → total ≤ buf.length →
-      (segLoop scriptWorld cfg32 fuel toggle buf total
-          { ctr := ctr, dev := List.replicate n [zeroSeg], outq := [], reqs := reqs, reads := reads }).1 = .err .timeout ∧
-      (segLoop scriptWorld cfg32 fuel toggle buf total
-          { ctr := ctr, dev := List.replicate n [zeroSeg], outq := [], reqs := reqs, reads := reads }).2.reads = reads + n := by
-  intro n
-  induction n with
-  | zero =>
-    intro fuel toggle buf total ctr reqs reads hf _
-    obtain ⟨fuel, rfl⟩ : ∃ k, fuel = k + 1 := ⟨fuel - 1, by omega⟩
-    simp [segLoop, mailboxCounter, mailboxWriteRead, drainStale, writeRequest, readMailbox, scriptWorld, cfg32]
-  | succ n ih =>
-    intro fuel toggle buf total ctr reqs reads hf ht
-    obtain ⟨fuel, rfl⟩ : ∃ k, fuel = k + 1 := ⟨fuel - 1, by omega⟩
-    have hstep : segLoop scriptWorld cfg32 (fuel + 1) toggle buf total
-          { ctr := ctr, dev := List.replicate (n + 1) [zeroSeg], outq := [], reqs := reqs, reads := reads } =
-        segLoop scriptWorld cfg32 fuel (!toggle) buf total
-          { ctr := nextCounter ctr, dev := List.replicate n [zeroSeg], outq := [],
-            reqs := reqs ++ [image 32 (segmentRequest ctr toggle)], reads := reads + 1 } := by
-      rw [segLoop]
-      simp only [mailboxCounter, List.replicate_succ, mwr_zeroSeg]
-      have h3 : ¬ zeroSegHdr.header.length < SEGMENT_HEADER_LEN := by decide
-      have h0 : zeroSegHdr.header.length - SEGMENT_HEADER_LEN = 0 := by decide
-      simp only [if_neg h3, h0]
-      have hd : ((0 : Nat) == SEGMENT_MIN_DATA) = false := by decide
-      simp only [hd, Bool.false_eq_true, if_false, List.take_zero, setRange_nil, Nat.add_zero, Nat.not_lt_zero]
-      rw [if_neg (by omega)]
-      have hl : zeroSegHdr.isLast = false := rfl
-      simp only [hl, Bool.false_eq_true, if_false]
-    rw [hstep]
-    have := ih fuel (!toggle) buf total (nextCounter ctr) (reqs ++ [image 32 (segmentRequest ctr toggle)]) (reads + 1)
-      (by omega) ht
-    refine ⟨this.1, ?_⟩
-    rw [this.2]; omega
+/-- The former witness of c16/segment-endless: a zero-length non-final segment now ends the transfer with
+    `Error::Internal` after ONE request, however many such segments the device has in store. -/
+theorem segLoop_zeroSegs_fixed (n fuel : Nat) (toggle : Bool) (buf : List Nat) (total ctr : Nat)
+    (reqs : List (List Nat)) (reads : Nat) (ht : total ≤ buf.length) :
+    (segLoop scriptWorld cfg32 (fuel + 1) toggle buf total
+        { ctr := ctr, dev := List.replicate (n + 1) [zeroSeg], outq := [], reqs := reqs, reads := reads }).1 = .err .internal ∧
+    (segLoop scriptWorld cfg32 (fuel + 1) toggle buf total
+        { ctr := ctr, dev := List.replicate (n + 1) [zeroSeg], outq := [], reqs := reqs, reads := reads }).2.reads = reads + 1 := by
+  rw [segLoop]
+  simp only [mailboxCounter, List.replicate_succ, mwr_zeroSeg]
+  have h3 : ¬ zeroSegHdr.header.length < SEGMENT_HEADER_LEN := by decide
+  have h0 : zeroSegHdr.header.length - SEGMENT_HEADER_LEN = 0 := by decide
+  simp only [if_neg h3, h0]
+  have hd : ((0 : Nat) == SEGMENT_MIN_DATA) = false := by decide
+  simp only [hd, Bool.false_eq_true, if_false, List.take_zero, setRange_nil, Nat.add_zero, Nat.not_lt_zero]
+  rw [if_neg (by omega)]
+  have hl : zeroSegHdr.isLast = false := rfl
+  simp only [hl, Bool.false_eq_true, if_false, beq_self_eq_true, if_true, and_self]
 
 /-! ### Zero-length SDO-info fragments -/
 
@@ -163,33 +136,26 @@ def zeroFragHdr : ListResponse :=
 
 theorem unpack_zeroFrag : unpackListResponse (mkPdu cfg16 (image 16 zeroFrag)).bytes = .ok zeroFragHdr := by decide
 
+/-- The former witness of c16/sdo-info-endless: a zero-length fragment that announces more is `Error::Internal`. -/
 theorem infoStep_zeroFrag (consumed : Bool) (buf : List Nat) (hb : buf.length ≤ INFO_BUF_CAP) :
-    infoStep cfg16 (mkPdu cfg16 (image 16 zeroFrag)) consumed buf = .ok (.frag buf true) := by
+    infoStep cfg16 (mkPdu cfg16 (image 16 zeroFrag)) consumed buf = .err .internal := by
   unfold infoStep
   rw [unpack_zeroFrag]
   have h1 : (zeroFragHdr.opCode == opListResponse) = true := by decide
   have h2 : ¬ zeroFragHdr.mailbox.length < COE_HEADER_AND_LIST_TYPE_SIZE := by decide
   have h3 : zeroFragHdr.mailbox.length - COE_HEADER_AND_LIST_TYPE_SIZE = 0 := by decide
+  have h4 : zeroFragHdr.incomplete = true := rfl
   simp only [Res.bind_ok, h1, if_true, if_neg h2, h3, Nat.not_lt_zero, if_false, List.take_zero, List.length_nil,
-    Nat.add_zero, List.append_nil]
+    Nat.add_zero, h4, beq_self_eq_true, Bool.and_self]
   rw [if_neg (by omega)]
-  rfl
 
-/-- For every n, n zero-length fragments are all consumed (n mailbox reads) and the transfer only ends because the
-    device falls silent. -/
-theorem infoLoop_zeroFrags : ∀ (n : Nat) (consumed : Bool) (buf : List Nat) (reads : Nat), buf.length ≤ INFO_BUF_CAP →
-    infoLoop cfg16 (List.replicate n zeroFrag) consumed buf reads = (.err .timeout, [], reads + n) := by
-  intro n
-  induction n with
-  | zero => intro _ _ _ _; rfl
-  | succ n ih =>
-    intro consumed buf reads hb
-    rw [List.replicate_succ, infoLoop]
-    have : cfg16.rmbx = 16 := rfl
-    rw [this, infoStep_zeroFrag consumed buf hb]
-    simp only [if_true]
-    rw [ih true buf (reads + 1) hb]
-    congr 2
-    omega
+/-- However many zero-length fragments the device has queued, the loop stops at the first one: one mailbox read. -/
+theorem infoLoop_zeroFrags_fixed (n : Nat) (consumed : Bool) (buf : List Nat) (reads : Nat)
+    (hb : buf.length ≤ INFO_BUF_CAP) :
+    infoLoop cfg16 (List.replicate (n + 1) zeroFrag) consumed buf reads =
+      (.err .internal, List.replicate n zeroFrag, reads + 1) := by
+  rw [List.replicate_succ, infoLoop]
+  have : cfg16.rmbx = 16 := rfl
+  rw [this, infoStep_zeroFrag consumed buf hb]
 
 end Ec.Coe
